@@ -22,7 +22,10 @@ Fails(e) ==
   ELSE IF e.e # "RPC" THEN {}
   ELSE LET I == Ifaces[e.iface] IN
        Tag((IF e.iface = "calc" THEN e.hash_calc ELSE e.hash_small) = I.hash, "interface-hash")
-       \cup UnionOver(Len(e.calls), LAMBDA i : CallFails(I, e.calls[i]))
+       \cup UnionOver(Len(e.calls), LAMBDA i :
+              LET c == e.calls[i] IN
+              IF Has(c, "fault") /\ c.ftrig THEN (IF IOEnv.PROP = "C10" THEN FaultFails(c) ELSE {})
+              ELSE IF IOEnv.PROP = "C10" THEN {} ELSE CallFails(I, c))
 
 Init == l = 1 /\ nrej = 0
 Step ==
